@@ -6,7 +6,27 @@ import "fmt"
 func unnamedEntry() Entry {
 	return Entry{Name: "unnamed", Build: func(f *Frag) {
 		f.Solo = true
-		switch f.N("form", 9) {
+		switch f.N("form", 11) {
+		case 9: // several unnamed functions of ONE type, each referred to in every way a function can be
+			f.TopLine("define void @0() {\n  ret void\n}")
+			f.TopLine("define void @1() {\n  ret void\n}")
+			f.TopLine("define void @2() {\n  ret void\n}")
+			f.TopLine("@a = global void ()* dso_local_equivalent @1")
+			f.TopLine("@b = global void ()* dso_local_equivalent @2")
+			f.TopLine("@c = global void ()* no_cfi @2")
+			f.TopLine("@d = global void ()* no_cfi @1")
+			f.TopLine("@e = global [3 x void ()*] [void ()* @2, void ()* @0, void ()* @1]")
+			f.TopLine("@f = alias void (), void ()* @1")
+			f.TopLine("define void @user() personality void ()* @2 {\n  call void @1()\n  call void @0()\n  call void dso_local_equivalent @2()\n  ret void\n}")
+		case 10: // several unnamed globals / aliases of one type referred to from constants and instructions
+			f.TopLine("@0 = global i32 10")
+			f.TopLine("@1 = global i32 11")
+			f.TopLine("@2 = global i32 12")
+			f.TopLine("@3 = alias i32, i32* @1")
+			f.TopLine("@4 = alias i32, i32* @2")
+			f.TopLine("@t = global [4 x i32*] [i32* @2, i32* @4, i32* @0, i32* @3]")
+			f.TopLine("@u = global i64 add (i64 ptrtoint (i32* @1 to i64), i64 ptrtoint (i32* @3 to i64))")
+			f.TopLine("define i32 @user() {\n  %%x = load i32, i32* @2\n  %%y = load i32, i32* @4\n  store i32 %%x, i32* @0\n  %%z = add i32 %%x, %%y\n  ret i32 %%z\n}")
 		case 7: // a definition that carries a number of another kind (!N) between unnamed globals
 			f.TopLine("@0 = global i32 10")
 			f.TopLine("!3 = !{}")
